@@ -36,7 +36,7 @@ NAME_DOMAINS = {
     "p1": [("1cm", "2cm")], "p2": [("3cm", "4cm")], "glue_points": [(1, 2)], "anchor_type": ["page", "frame", "paragraph", "char", "as-char"],
     "note_class": ["footnote", "endnote"], "cell_type": ["float", "string", "currency", "percentage", "boolean", "date", "time"],
     "currency": ["EUR"], "formula": ["of:=1+1"], "date": [datetime(2024, 1, 31, 12, 0, 0), datetime(1999, 12, 31, 23, 59, 59)], "time": [datetime(2024, 1, 31, 12, 0, 0)],
-    "display": ["name", "number", "true", "none"], "ref_format": ["page", "text", "chapter"], "xlink_type": ["simple"], "show": ["embed", "new"],
+    "display": ["name", "number", "true", "none"], "ref_format": ["page", "text", "chapter", "direction", "category-and-value", "caption", "value", "number", "number-all-superior", "number-no-superior"],  # ODF 1.2 19.857 text:reference-format "xlink_type": ["simple"], "show": ["embed", "new"],
     "actuate": ["onLoad", "onRequest"], "print_ranges": [["A1:B2"], ["A1:B2", "C3:D4"]], "crange": ["A1", "B2:C3", (0, 0, 1, 1)],
     "font_name": ["Arial", "Deja Vu"], "font_pitch": ["variable", "fixed"], "value": [7, "txt", True, 1.5], "value_type": ["float", "string"],
     "z_index": [0, 1], "number": [1, 2], "start_value": [1, 5], "anchor_page": [1, 2], "table_name": ["T", "a b"], "usage": ["filter", "print-range"],
